@@ -83,7 +83,18 @@ def scaled_tok(x, d):
 class P(Prop):
     id = "C13"
     design_ref = "DESIGN.md section 5, C13"
-    theorems = []
+    M = "TracklibVerif.Props.C13"
+    theorems = [
+        (M, "TV.C13.fixed_roundtrip", "float(\"{:w.df}\".format(x).strip()) is exactly the printed decimal, for every scaled integer x (incl. -0.000), every w and d"),
+        (M, "TV.C13.fixed_roundtrip_int", "the same for a plain integer n standing for n/10^d"),
+        (M, "TV.C13.fixed_padded_roundtrip", "float() of the unstripped \"{:w.df}\" text (GPX attributes) is the printed decimal"),
+        (M, "TV.C13.columns_roundtrip", "ids a bijection onto 0..k-1 => __printInOrder writes the datum with id j in column j (then the features) and the reader's fields[id_X] finds X"),
+        (M, "TV.C13.validIds_iff", "the valid id assignments are exactly the 2+6+6+24 permutation layouts"),
+        (M, "TV.C13.row_roundtrip", "a data line written by writeToFile (any valid layout, any feature columns, separator not a number character, lossless time format avoiding the separator) is read back by __readFromCsv as the same observation"),
+        (M, "TV.C13.time_roundtrip", "readTimestamp(str(t)) gives back the fields named by a format of distinct full-width codes, for every stamp that fits the widths"),
+        (M, "TV.C13.time_roundtrip_full", "with the six calendar codes the calendar part is read back identically"),
+        (M, "TV.C13.fits_of_wf", "every well-formed ObsTime before year 10000 fits the widths"),
+    ]
     partial = []
     open_statements = []
     modelled = ("TrackWriter.writeToFile (O list, sort, __printInOrder, float formats), TrackReader.__readFromCsv (data loop, header/comment "
